@@ -187,6 +187,10 @@ class Interp:
     def e_Lambda(self, e, S, sc):
         return S
 
+    def e_NamedExpr(self, e, S, sc):
+        S = self.expr(e.value, S, sc)
+        return self._event("store", e.target, S, sc)
+
     def _comp(self, gens, elts, S, sc):
         g = gens[0]
         S = self._iter_expr(g.iter, S, sc)
